@@ -121,3 +121,25 @@ def _close_matches(word, possibilities, *a, **kw):
 
 _PATCH_REGISTRATIONS[str] = _msg_str
 _PATCH_REGISTRATIONS[_difflib.get_close_matches] = _close_matches
+
+
+# CrossHair's replacement of hash() carries a PEP-316 contract, so the analysis may *short-circuit* it: skip the body and
+# return an arbitrary int satisfying the postcondition.  tartiflette defines GraphQLSchema.__hash__ = hash(self.name) and the
+# default query cache (functools.lru_cache) hashes the schema on every request: a short-circuited hash makes __hash__ return a
+# symbolic int ("__hash__ method should return an integer") — a failure that does not exist in CPython.  Same body, no contract:
+def _plain_hash(obj):
+    with NoTracing():
+        if not _bl.is_hashable(obj):
+            return hash(obj)  # error in the native way
+    return _bl.invoke_dunder(obj, "__hash__")
+
+
+_PATCH_REGISTRATIONS[hash] = _plain_hash
+
+
+def _plain_repr(obj):
+    # same for repr(): CrossHair's version is contracted (`post[]: True`) and may be short-circuited into an arbitrary string
+    return _bl.invoke_dunder(obj, "__repr__")
+
+
+_PATCH_REGISTRATIONS[repr] = _plain_repr
